@@ -24,8 +24,9 @@ ASSUMPTIONS = [
 REQUIRED = ['sched_stop_runs_to_completion_at_a_loop_preemption_point', 'sched_stopper_preempted_while_loop_sleeps', 'stop_in_started', 'stop_mid_chain', 'stop_in_generator_step', 'stop_via_systemexit', 'stop_via_keyboardinterrupt',
             'stop_from_second_thread', 'exit_code_given', 'events_fired_after_stop', 'stopped_handler_fires', 'queued_before_run',
             'second_cycle', 'stop_when_not_running', 'stop_of_registered_child_while_root_runs', 'systemexit_while_not_running',
-            'several_exits_in_one_run', 'codeless_exit_next_to_a_coded_one']
-REQUIRED_OBLIGATIONS = ['STARTED_ONCE', 'STOPPED_ONCE', 'DRAINED', 'EXIT_CODE', 'RUN_ENDS', 'STOP_NOT_RUNNING_NOOP']
+            'several_exits_in_one_run', 'codeless_exit_next_to_a_coded_one', 'loop_iteration_with_events_still_queued',
+            'loop_iteration_with_a_later_priority_event_behind_generate_events']
+REQUIRED_OBLIGATIONS = ['STARTED_ONCE', 'STOPPED_ONCE', 'DRAINED', 'EXIT_CODE', 'RUN_ENDS', 'STOP_NOT_RUNNING_NOOP', 'KEEPS_PROCESSING']
 WORKER_TIMEOUT = {'quick': 300, 'thorough': 1500}
 ENGINE = 'stepping-driver'
 TECHNIQUE = 'runtime monitoring: dispatch log and return value of real run() calls in the checking thread, compared with the ghost set of fired events'
@@ -54,6 +55,20 @@ def run_case(case):
     class Idle(BaseComponent):
         @handler('generate_events', priority=-50)
         def _on_ge(self, event):
+            # "keeps processing": the loop has just decided how long its event sources may wait.  Everything here happens in the loop
+            # thread; an event that was fired and is neither dispatched nor cancelled sits in the queue (or in the batch being flushed
+            # behind this very event), and nobody else will wake the loop for it - an unlimited wait would leave it there for ever
+            pending = [u for u, inf in w.events.items() if not inf.get('system') and not inf['cancelled'] and inf['dispatched'] == 0]
+            if pending:
+                counts['KEEPS_PROCESSING'] += 1
+                marks.add('loop_iteration_with_events_still_queued')
+                if any(w.events[u].get('prio', 0) > 0 for u in pending):
+                    marks.add('loop_iteration_with_a_later_priority_event_behind_generate_events')
+                tl = event.time_left
+                if (tl is None or tl < 0) and not any(p[0] == 'KEEPS_PROCESSING' for p in problems):
+                    problems.append(('KEEPS_PROCESSING', {'note': 'the loop allowed its event sources to wait without limit while events fired by '
+                                                          'handlers were still queued', 'time_left': tl, 'loop_iteration': st['iters'],
+                                                          'queued': [[u, w.events[u]['name'], w.events[u].get('prio', 0)] for u in pending][:6]}))
             event.reduce_time_left(0)
             st['iters'] += 1
             w.tick_no += 1
@@ -234,10 +249,19 @@ def E(n):
     return {'name': n}
 
 
-def chain(hid0, stop_action, where, code_unused=None, gen_stop=False, after=2, stopped_fires=True, length=4, childstop=()):
+def chain(hid0, stop_action, where, code_unused=None, gen_stop=False, after=2, stopped_fires=True, length=4, childstop=(), prios=None, lone=()):
     """started -> a0 -> a1 -> ... ; `where` = -1 for the started handler, k for handler of a_k.
     childstop: (position, code) pairs - the handler at that position first calls stop(code) of a registered child component."""
     hs = _chain(hid0, stop_action, where, gen_stop, after, stopped_fires, length)
+    # prios: chain position -> priority with which a_<position> is fired (numerically larger = later in its batch, behind the loop's own
+    # generate_events event); lone: positions whose handler fires nothing but the next link
+    for h in hs:
+        for a in h['body']:
+            if a[0] == 'fire' and prios and a[1]['name'][:1] == 'a' and a[1]['name'][1:].isdigit() and int(a[1]['name'][1:]) in prios:
+                a[1] = dict(a[1], prio=prios[int(a[1]['name'][1:])])
+    for pos in lone:
+        h = hs[pos + 1] if -1 <= pos < length else hs[0]
+        h['body'] = [a for a in h['body'] if not (a[0] == 'fire' and a[1]['name'] == 'x')]
     for pos, code in childstop:
         h = hs[pos + 1] if -1 <= pos < length else hs[0]
         at = 1 if h['gen'] else 0
@@ -305,6 +329,12 @@ def corpus():
     for code in (5, 'early'):
         cs.append({'name': 'sysexit-while-not-running-%r' % (code,), 'handlers': chain(1, ['stopmgr', None], 1) + [HD(90, 'presys', [['fire', E('x')], ['sysexit', code]])],
                    'cycles': [{'pre_sysexit': code}, {}, {'pre_sysexit': code, 'pre_fires': [E('x')]}]})
+    # links fired with a priority that puts them behind the loop's own generate_events event, alone in the queue
+    for pr in (1, 2.5, -1):
+        for act in (['stopmgr', 3], ['sysexit', None], ['kbint']):
+            cs.append({'name': 'lone-link-prio-%r-%s' % (pr, act[0]), 'handlers': chain(1, act, 3, prios={0: pr, 1: pr, 2: 0, 3: pr}, lone=(-1, 0, 1, 2)),
+                       'cycles': [{}, {'pre_fires': [E('y')]}]})
+    cs.append({'name': 'lone-link-prio-gen', 'handlers': chain(1, ['stopmgr', None], 2, gen_stop=True, prios={0: 1, 1: 1, 2: 1}, lone=(-1, 0, 1)), 'cycles': [{}, {}]})
     cs.append({'name': 'kbint', 'handlers': chain(1, ['kbint'], 2), 'cycles': [{}, {}, {}]})
     cs.append({'name': 'kbint-gen', 'handlers': chain(1, ['kbint'], 0, gen_stop=True), 'cycles': [{}, {}]})
     cs.append({'name': 'thread', 'handlers': chain(1, ['fire', E('release_stopper')], 1), 'cycles': [{'thread_stop': True}, {'thread_stop': True, 'pre_fires': [E('x')]}]})
@@ -327,7 +357,10 @@ def gen_case(rng):
         act = ['fire', E('release_stopper')]
         gen_stop = False
     childstop = [(rng.randint(-1, length - 1), rng.choice([None, None, 0, 3])) for _ in range(rng.choice([0, 0, 0, 1, 1, 2]))]
-    hs = chain(1, act, where, gen_stop=gen_stop, after=rng.randint(0, 3), stopped_fires=rng.random() < 0.7, length=length, childstop=childstop)
+    prios = {k: rng.choice([1, 1, 2.5, -1, 0.5]) for k in range(length) if rng.random() < 0.35}
+    lone = [k for k in range(-1, length - 1) if rng.random() < 0.4]
+    hs = chain(1, act, where, gen_stop=gen_stop, after=rng.randint(0, 3), stopped_fires=rng.random() < 0.7, length=length, childstop=childstop,
+               prios=prios, lone=lone)
     # some extra handlers with priorities / second handlers
     if rng.random() < 0.5:
         hs.append(HD(40, 'x', [['fire', E('y')]] * rng.randint(0, 2), prio=1))
